@@ -160,6 +160,34 @@ def run_scenario(entry, plan, container, seed, tid):
     return out, None
 
 
+def boss_jobs(ctx):
+    """The BOSS ensemble searches window / word lengths in parallel when n_jobs > 1: the ensemble it ends up with (and
+    what it predicts) is the one found with n_jobs = 1, on series long enough for several word lengths to compete."""
+    import joblib
+    from sktime.classification.dictionary_based import BOSSEnsemble
+    warnings.filterwarnings("ignore")
+    for s_ in range(8 if ctx.quick else 40):
+        seed = ctx.seed * 100 + s_
+        ctx.evaluations += 1
+        sc = {"boss_n_jobs": True, "seed": seed}
+        try:
+            X, y = E.make_panel(10, 1, 40, seed, noise=4.0)
+            Xt, _ = E.make_panel(6, 1, 40, seed + 50, noise=4.0)
+            with joblib.parallel_backend("threading"):
+                a = BOSSEnsemble(max_ensemble_size=5, random_state=0, n_jobs=1).fit(X, y)
+                b = BOSSEnsemble(max_ensemble_size=5, random_state=0, n_jobs=2).fit(X, y)
+                pa, pb = a.predict_proba(Xt), b.predict_proba(Xt)
+            ma = [(c.window_size, c.word_length, c.norm) for c in a.classifiers]
+            mb = [(c.window_size, c.word_length, c.norm) for c in b.classifiers]
+            if ma != mb or not np.array_equal(pa, pb):
+                ctx.violation(sc, "ResultIndependentOfNJobs: BOSSEnsemble members (window, word length, norm) with n_jobs=1 %s, "
+                                  "with n_jobs=2 %s" % (ma, mb))
+            else:
+                ctx.nontriv(sc)
+        except Exception as e:
+            ctx.violation(sc, "crash: %s %s" % (type(e).__name__, str(e)[:120]))
+
+
 def schedule_checks(ctx):
     """Real threads forced to complete in every order that Parallel.tla allows."""
     import joblib
@@ -288,6 +316,7 @@ def run(ctx):
     for t, clauses in rejects.items():
         ctx.violation(meta[t], "TLC rejects the recorded scenario of %s: %s" % (meta[t]["estimator"], clauses))
     schedule_checks(ctx)
+    boss_jobs(ctx)
     return ctx.finish(
         rule="TLC enumerates every interleaving of up to 4 apply-type calls per method profile (transform; "
              "transform+inverse_transform; predict+predict_proba; predict) and every completion order of T tasks on "
@@ -309,6 +338,10 @@ def replay(ctx, doc):
     if "schedule" in sc:
         n0 = len(ctx.violations)
         schedule_checks(ctx)
+        return 1 if len(ctx.violations) > n0 else 0
+    if "boss_n_jobs" in sc:
+        n0 = len(ctx.violations)
+        boss_jobs(ctx)
         return 1 if len(ctx.violations) > n0 else 0
     entries = E.series_transformers() + E.panel_transformers() + E.classifiers() + E.regressors()
     for e in scope.forecasters():
